@@ -144,6 +144,7 @@ def mon_conn(ops, impl):
     woken_since_poll, input_since_poll, parked = False, True, False
     gone, gone_st, last_st_before = False, "", ""
     peer_goaway, result_seen = "-", False
+    cap_wait, sendbuf = {}, 409600
     for i, (o, a) in enumerate(zip(ops, impl)):
         w = o.split(" ")
         if w[0] == "cn_new":
@@ -158,6 +159,10 @@ def mon_conn(ops, impl):
             woken_since_poll, input_since_poll, parked = False, True, False
             gone = False
             peer_goaway, result_seen = "-", False
+            cap_wait, sendbuf = {}, 409600
+            for kv in w[2:]:
+                if kv.startswith("sendbuf="):
+                    sendbuf = int(kv[8:])
             budget_open = True
             alive = True
             role = w[1]
@@ -187,6 +192,31 @@ def mon_conn(ops, impl):
             selfw = "c" in _f(a, "wk=").split(",")
             progress = _f(a, "tx=") != "-" or st != last_st or last_op_was_input
             out.append((i, f"mon_cn polled {int(selfw)} {int(progress)}"))
+        # C16: a task told to wait by poll_capacity hears about new capacity
+        wkset = _f(a, "wk=").split(",")
+        for k in list(cap_wait):
+            if f"s{k}" in wkset:
+                del cap_wait[k]
+        if st not in ("-", "gone", ""):
+            caps = {}
+            for seg in st.split("|"):
+                if seg.startswith("S") and not seg.startswith("SB:"):
+                    f = seg.split(":", 1)[1].split(",")
+                    try:
+                        caps[int(seg[1:].split(":")[0])] = max(0, min(int(f[2]), sendbuf) - int(f[4]))
+                    except ValueError:
+                        pass
+            for k, c0 in list(cap_wait.items()):
+                if k < len(slots) and slots[k] in caps:
+                    out.append((i, f"mon_capwait {c0} {caps[slots[k]]} 0"))
+                    if caps[slots[k]] > c0:
+                        del cap_wait[k]
+            if w[0] == "cn_pollcap" and r == "pending" and w[1].isdigit() and int(w[1]) < len(slots) and slots[int(w[1])] in caps:
+                cap_wait[int(w[1])] = caps[slots[int(w[1])]]
+        if w[0] in ("cn_pollcap", "cn_pollreset") and r != "pending" and len(w) > 1 and w[1].isdigit():
+            cap_wait.pop(int(w[1]), None)      # polled again and answered: the wait is over
+        if w[0] in ("cn_drop", "cn_reset") and len(w) > 1 and w[1].isdigit():
+            cap_wait.pop(int(w[1]), None)
         # C15: how the connection future completes vs the peer's last GOAWAY
         if w[0] == "cn_peer":
             for f in (_f(a, "rx=").split(";") if _f(a, "rx=") != "-" else []):
